@@ -782,7 +782,7 @@ class ComponentType(object):
         Gets required and at-least-one dependencies not provided by the broker.
         """
         missing_required = [r for r in self.requires if r not in broker]
-        missing_at_least_one = [d for d in self.at_least_one if not set(d).intersection(broker)]
+        missing_at_least_one = [d for d in self.at_least_one if not any(c in broker for c in d)]
         if missing_required or missing_at_least_one:
             return (missing_required, missing_at_least_one)
 
